@@ -806,8 +806,9 @@ private:
 
   // Plausibility window for a decoded absolute expiry (epoch ms). Values outside
   // it are treated as corruption on replay (KTP-11 sanity bound). The ceiling is
-  // year ~2300; the floor rejects non-positive timestamps.
-  static constexpr std::int64_t kMaxPlausibleEpochMs = 10'413'792'000'000LL;
+  // the largest value system_clock::time_point (int64 nanoseconds) can hold, year ~2262
+  // (a larger one overflows in fromEpochMs); the floor rejects non-positive timestamps.
+  static constexpr std::int64_t kMaxPlausibleEpochMs = 9'223'372'036'854LL;
 
   static std::chrono::system_clock::time_point kNoExpiry()
   {
